@@ -904,6 +904,38 @@ def _decoders(items, binary_only=False):
     return out
 
 
+def _unjudgeable(items):
+    """why a consumption tree cannot be compared / measured: a loop with several exits that has no normal form, an absolute seek"""
+    for it in items:
+        if it[0] == "abs":
+            return "an absolute seek"
+        if it[0] == "if":
+            r = _unjudgeable(it[2]) or _unjudgeable(it[3])
+            if r:
+                return r
+        if it[0] == "loop":
+            lp = it[1]
+            if lp.kind == "while" and not lp.forced and _rat(lp.test) and C.norm(lp.test).is_const():
+                return "a `while True` loop with several exits"
+            r = _unjudgeable(lp.items)
+            if r:
+                return r
+    return None
+
+
+def _tree_check(ctx, ok, text, where, detail, *trees):
+    """an obligation on the shape / amounts of consumption trees: when it does not hold and a tree has no normal form, the rule cannot
+    judge (analysis error); otherwise it is a verdict"""
+    if not ok:
+        for t in trees:
+            why = _unjudgeable(t) if t is not None else None
+            if why:
+                ctx.error(text + f" [cannot be judged: {why}]", where, detail)
+                return False
+    ctx.check(ok, text, where, detail)
+    return ok
+
+
 def _same_tree(ctx, a, b, text, where, whole_values=True, detail=None):
     """obligation `the two consumption trees are equal`; when they differ *and* decode the file through different functions (one of them
     unknown to the evaluator) the difference cannot be judged: analysis error, not violation"""
@@ -912,6 +944,9 @@ def _same_tree(ctx, a, b, text, where, whole_values=True, detail=None):
     if not ok and _decoders(a) != _decoders(b):
         ctx.error(text + " [the two sides decode what they read through different functions: " +
                   ", ".join(sorted(_decoders(a) ^ _decoders(b))) + "]", where, {"first difference": why[:1]})
+        return False
+    if not ok and (_unjudgeable(a) or _unjudgeable(b)):
+        ctx.error(text + f" [cannot be judged: {_unjudgeable(a) or _unjudgeable(b)}]", where, {"first difference": why[:1]})
         return False
     d = None
     if not ok:
@@ -960,7 +995,7 @@ def r4_read_equals_skip(ctx):
     if gk is not None:
         tot = C.total(_strip_exit(gk.top.items), "B")
         ok = tot is not None and C.same(tot, KEY)
-        ctx.check(ok, "_getkey: a key is 4 + ibytes + 4 bytes", gk.fn, None if ok else C.show(gk.top.items))
+        _tree_check(ctx, ok, "_getkey: a key is 4 + ibytes + 4 bytes", gk.fn, None if ok else C.show(gk.top.items), gk.top.items)
     # between the records of a data block header only whole keys are skipped: whatever rdop2nt consumes beyond its three records
     # [4][payload][4] (name, trailer, name) is a whole number of the triplets _getkey reads, in both key widths
     nt = _w2(ctx, "rdop2nt")
@@ -1008,14 +1043,14 @@ def r4_read_equals_skip(ctx):
         ok = len(rec) == 1 and C.total(rec[0].items, "B") is not None
         word = F.fn("idx", F.fn("dec", F.fn("rd", rec[0].frame, F.const(0), F.const(4))), F.const(0)) if ok else None
         ok = ok and C.same(C.total(rec[0].items, "B"), 4 + word + 4 + KEY)
-        ctx.check(ok, "rdop2matrix: per record reads 4 + ibytes + n*bytes_per + 4 bytes with n = (reclen - ibytes)//bytes_per (= 4 + reclen + 4 for whole "
-                      "values), on both sides of the cut-over", rec[0].node if rec else rm.fn, None if ok else C.show(rm.top.items)[:400])
+        _tree_check(ctx, ok, "rdop2matrix: per record reads 4 + ibytes + n*bytes_per + 4 bytes with n = (reclen - ibytes)//bytes_per (= 4 + reclen + 4 for "
+                    "whole values), on both sides of the cut-over", rec[0].node if rec else rm.fn, None if ok else C.show(rm.top.items)[:400], rm.top.items)
     if sm is not None:
         rec = [lp for lp in C.loops_in(sm.top.items) if not C.loops_in(lp.items)]
         ok = len(rec) == 1 and C.total(rec[0].items, "B") is not None
         word = F.fn("idx", F.fn("dec", F.fn("rd", rec[0].frame, F.const(0), F.const(4))), F.const(0)) if ok else None
         ok = ok and C.same(C.total(rec[0].items, "B"), 4 + word + 4 + KEY, whole_values=False)
-        ctx.check(ok, "skipop2matrix: per record skips 4 + reclen + 4 bytes", rec[0].node if rec else sm.fn, None if ok else C.show(sm.top.items)[:400])
+        _tree_check(ctx, ok, "skipop2matrix: per record skips 4 + reclen + 4 bytes", rec[0].node if rec else sm.fn, None if ok else C.show(sm.top.items)[:400], sm.top.items)
     # ---- records
     rr, sr = _w2(ctx, "rdop2record"), _w2(ctx, "skipop2record")
     sk_loop = None
@@ -1027,7 +1062,7 @@ def r4_read_equals_skip(ctx):
             word = F.fn("idx", F.fn("dec", F.fn("rd", sk_loop.frame, F.const(0), F.const(4))), F.const(0))
             ok = C.total(sk_loop.items, "B") is not None and C.same(C.total(sk_loop.items, "B"), 4 + word + 4 + KEY, whole_values=False) \
                 and C.total(_until_exit(tail), "B") is not None and C.same(C.total(_until_exit(tail), "B"), 2 * KEY)
-        ctx.check(ok, "skipop2record: per record 4 + (reclen + 4) bytes, then the two trailing keys", sr.fn, None if ok else C.show(sr.top.items)[:400])
+        _tree_check(ctx, ok, "skipop2record: per record 4 + (reclen + 4) bytes, then the two trailing keys", sr.fn, None if ok else C.show(sr.top.items)[:400], sr.top.items)
     if rr is not None:
         al = _after_loops(rr.top.items)
         _bound(ctx, len(al) >= 2, f"rdop2record: {len(al)} record loops (raw bytes; decoded values)", rr.fn)
@@ -1040,12 +1075,12 @@ def r4_read_equals_skip(ctx):
                     ren = C.renamer([(lp.frame, F.sym("LOOP"))])
                     ren2 = C.renamer([(sk_loop.frame, F.sym("LOOP"))])
                     ok = C.same_loops(C.map_loop(lp, ren), C.map_loop(sk_loop, ren2), why=why)
-                ctx.check(ok, "rdop2record loop: per record 4 + reclen + 4 bytes and the next key, exactly what skipop2record skips (payload read as "
-                              "n = reclen // bytes_per values of bytes_per bytes, on both sides of the cut-over)", lp.node,
-                          None if ok else {"first difference": why[:1], "loop": C.show(lp.items)[:300]})
+                _tree_check(ctx, ok, "rdop2record loop: per record 4 + reclen + 4 bytes and the next key, exactly what skipop2record skips (payload read "
+                            "as n = reclen // bytes_per values of bytes_per bytes, on both sides of the cut-over)", lp.node,
+                            None if ok else {"first difference": why[:1], "loop": C.show(lp.items)[:300]}, rr.top.items, sr.top.items)
             t = C.total(_until_exit(tail), "B")
             ntail += t is not None and C.same(t, 2 * KEY)
-        ctx.check(ntail == len(al) and ntail > 0, "rdop2record: two trailing keys are skipped on every exit that follows a record loop", rr.fn)
+        _tree_check(ctx, ntail == len(al) and ntail > 0, "rdop2record: two trailing keys are skipped on every exit that follows a record loop", rr.fn, None, rr.top.items)
     # ---- table headers and DYNAMICS: a record of `key` words
     for name, label in (("rdop2tabheaders", "rdop2tabheaders: per record 4 + 3*ibytes + (key - 3)*ibytes + 4 bytes (= 4 + key*ibytes + 4; reclen = key * ibytes)"),
                         ("rdop2dynamics", "rdop2dynamics: per record 4 + 3*ibytes + (key - 3)*ibytes + 4 bytes whichever of the three routes (struct, fromfile, seek) "
@@ -1069,7 +1104,7 @@ def r4_read_equals_skip(ctx):
                 ok = len(t2) >= 1 and t2[0][0] == "B" and len(t2) >= 2 and t2[1][0] == "if" and C.same(t2[0][1], 2 * KEY + 4)
                 if not ok:
                     detail = C.show(tail)[:300]
-        ctx.check(ok, label + "; two trailing keys and the end-of-table key follow", w.fn, detail)
+        _tree_check(ctx, ok, label + "; two trailing keys and the end-of-table key follow", w.fn, detail, w.top.items)
     # ---- op4 binary: record = [4][3 words][payload][4]
     tbs = T.tables(ctx)["op4"]
     sb = _w4(ctx, "_skipop4_binary")
@@ -1096,8 +1131,8 @@ def r4_read_equals_skip(ctx):
             if ok:
                 et = C.fn_parts(C.norm(lp.entry_test()))
                 ok = et is not None and et[0] == "ge0" and (et[1][0] - cols).is_const() and (et[1][0] - cols).const_value() >= -1
-        ctx.check(ok, "_skipop4_binary: per column record 4 + reclen + 4 bytes; the column number is the first header word; stops after the sentinel "
-                      "column cols + 1", sb.fn, None if ok else C.show(sb.top.items)[:300])
+        _tree_check(ctx, ok, "_skipop4_binary: per column record 4 + reclen + 4 bytes; the column number is the first header word; stops after the "
+                    "sentinel column cols + 1", sb.fn, None if ok else C.show(sb.top.items)[:300], sb.top.items)
     dense_w = None
     for rd in _readers(ctx, "_loadop4_binary"):
         reader, rf, w = rd["name"], rd["fn"], rd["w"]
@@ -1496,6 +1531,9 @@ def r6_cursor(ctx):
             # (on the paths that make the store: a cursor that only moves when something is stored is judged where it is stored)
             upd = [C.assume(v, w.cell_guards.get(id(st), ())) for q, v in lp.carry if len(ps) == 1 and q.equals(ps[0])]
             n += 1
+            if len(sites) != 1:
+                ctx.error("rdop2record: the decode (struct / fromfile cut-over) that yields the values stored in the loop", st, len(sites))
+                continue
             # the slice starts at the cursor itself (a loop-carried position) and the cursor moves on by the length of the slice
             ok = len(ps) == 1 and lo.equals(ps[0]) and len(upd) == 1 and _rat(upd[0]) and C.same(upd[0] - ps[0], ext, whole_values=False)
             cnt_ok = len(sites) == 1 and C.same(ext, sites[0]["count_ff"], whole_values=False)
@@ -1510,8 +1548,9 @@ def r6_cursor(ctx):
         p = C.fn_parts(v) if _rat(v) else None
         if p is not None and p[0] in ("call:np.empty", "call:np.zeros") and len(p[1]) == 2 and _rat(p[1][0]) and p[1][0].equals(Np):
             kw = C.fn_parts(p[1][1])
+            dt = kw[1][0] if kw is not None and kw[0] == "kw:dtype" else p[1][1]        # dtype by keyword or as the second argument
             sites = w.cutovers
-            ok = kw is not None and kw[0] == "kw:dtype" and bool(sites) and all(C.same(kw[1][0], c["dtype"]) for c in sites)
+            ok = _rat(dt) and bool(sites) and all(C.same(dt, c["dtype"]) for c in sites)
     ctx.check(ok, "rdop2record: the preallocated output has N elements of the dtype the records are decoded with", fn)
 
 
